@@ -390,6 +390,140 @@ func init() {
 		func(n, x, y *big.Int) *big.Int { return bmod(new(big.Int).Mul(x, y), n) })
 	uintOp("num.uint.exp", "zn.exp", 6, true, func(x, _ *num.Uint, c *tcase) (*num.Uint, error) { return x.Exp(nN(c.args[2])), nil },
 		func(n, x, y *big.Int) *big.Int { return new(big.Int).Exp(x, y, n) })
+	register(&opDef{name: "num.uint.expi", model: "zn.expi", weight: 5,
+		gen: func(r *vh.Rng, g *genCtx) *tcase {
+			c := genZn(false, true)(r, g)
+			if r.Intn(2) == 0 {
+				c.args[2] = new(big.Int).Neg(c.args[2])
+			}
+			return c
+		},
+		impl: func(c *tcase) (string, string) {
+			zn, _ := num.NewZMod(nP(c.args[0]))
+			return okz(nU(zn, c.args[1]).ExpI(nZ(c.args[2])).Big()), ""
+		},
+		rel: func(c *tcase, impl, model string) string {
+			if model == "refuse" || impl == model {
+				return "" // negative power of a non-unit: no value
+			}
+			return diffDetail("implementation", impl, "model", model)
+		},
+		orac: func(c *tcase) string {
+			if c.args[0].Cmp(one) == 0 {
+				return ""
+			}
+			v := bexp(c.args[0], c.args[1], c.args[2])
+			if v == nil {
+				return ""
+			}
+			return okz(v)
+		}})
+	register(&opDef{name: "num.uint.expbounded", model: "zn.expbounded", weight: 5,
+		gen: func(r *vh.Rng, g *genCtx) *tcase {
+			c := genZn(false, true)(r, g)
+			if r.Intn(2) == 0 {
+				c.args[2] = new(big.Int).Neg(c.args[2])
+			}
+			bits := vh.Pick(r, []int{0, 1, 8, 63, 64, 65, c.args[2].BitLen(), c.args[2].BitLen() + 5, r.Intn(c.args[2].BitLen() + 2)})
+			c.args = append(c.args, zi(bits))
+			return c
+		},
+		impl: func(c *tcase) (string, string) {
+			zn, _ := num.NewZMod(nP(c.args[0]))
+			x := nU(zn, c.args[1])
+			if c.args[2].Sign() >= 0 {
+				v := x.ExpBounded(nN(c.args[2]), uint(ai(c, 3)))
+				if w := x.ExpIBounded(nZ(c.args[2]), uint(ai(c, 3))); w.Big().Cmp(v.Big()) != 0 {
+					return "ok:expibounded-differs-from-expbounded", ""
+				}
+				return okz(v.Big()), ""
+			}
+			return okz(x.ExpIBounded(nZ(c.args[2]), uint(ai(c, 3))).Big()), ""
+		},
+		rel: func(c *tcase, impl, model string) string {
+			if model == "refuse" || impl == model {
+				return ""
+			}
+			return diffDetail("implementation", impl, "model", model)
+		},
+		orac: func(c *tcase) string {
+			if c.args[0].Cmp(one) == 0 {
+				return ""
+			}
+			v := bexp(c.args[0], c.args[1], intIn(ai(c, 3), c.args[2]))
+			if v == nil {
+				return ""
+			}
+			return okz(v)
+		}})
+	register(&opDef{name: "num.uint.shift", model: "zn.shift", weight: 4,
+		gen: func(r *vh.Rng, g *genCtx) *tcase {
+			c := genZn(false, false)(r, g)
+			c.args[2] = zi(vh.Pick(r, []int{0, 1, 7, 8, 63, 64, 65, r.Intn(200)}))
+			return c
+		},
+		impl: func(c *tcase) (string, string) {
+			zn, _ := num.NewZMod(nP(c.args[0]))
+			x := nU(zn, c.args[1])
+			return okz(x.Lsh(uint(ai(c, 2))).Big(), x.Rsh(uint(ai(c, 2))).Big()), ""
+		},
+		orac: func(c *tcase) string {
+			s := uint(ai(c, 2))
+			return okz(bmod(new(big.Int).Lsh(c.args[1], s), c.args[0]), bmod(new(big.Int).Rsh(c.args[1], s), c.args[0]))
+		}})
+	register(&opDef{name: "num.uint.div", model: "mod.div", weight: 5, gen: genZn(false, false),
+		impl: func(c *tcase) (string, string) {
+			zn, _ := num.NewZMod(nP(c.args[0]))
+			v, err := nU(zn, c.args[1]).TryDiv(nU(zn, c.args[2]))
+			if err != nil {
+				return "refuse", ""
+			}
+			return okz(v.Big()), ""
+		},
+		pred: func(c *tcase, impl string) string {
+			m, x, y := c.args[0], c.args[1], c.args[2]
+			if v := parseOk(impl); v != nil {
+				if bmod(new(big.Int).Mul(y, v[0]), m).Cmp(bmod(x, m)) != 0 {
+					return "returned quotient u does not satisfy y*u = x (mod m)"
+				}
+				return ""
+			}
+			if impl == "refuse" && m.Cmp(one) > 0 && new(big.Int).GCD(nil, nil, y, m).Cmp(one) == 0 {
+				return "division by a unit refused"
+			}
+			if impl == "panic" {
+				return "panic"
+			}
+			return ""
+		}})
+	register(&opDef{name: "num.natplus.arith", model: "z.arith", weight: 4,
+		gen: func(r *vh.Rng, g *genCtx) *tcase {
+			x, y := g.val(r), g.val(r)
+			x.Add(x, one)
+			y.Add(y, one)
+			if x.Cmp(y) <= 0 {
+				x.Add(y, big.NewInt(int64(1+r.Intn(5))))
+			}
+			return &tcase{args: []*big.Int{x, y}}
+		},
+		impl: func(c *tcase) (string, string) {
+			x, y := nP(c.args[0]), nP(c.args[1])
+			d, err := x.TrySub(y)
+			if err != nil {
+				return "refuse", ""
+			}
+			if _, err := y.TrySub(x); err == nil {
+				return "ok:non-positive-difference-accepted", ""
+			}
+			if _, err := x.TrySub(x); err == nil {
+				return "ok:zero-difference-accepted", ""
+			}
+			return okz(x.Add(y).Big(), d.Big(), x.Mul(y).Big()), ""
+		},
+		orac: func(c *tcase) string {
+			x, y := c.args[0], c.args[1]
+			return okz(new(big.Int).Add(x, y), new(big.Int).Sub(x, y), new(big.Int).Mul(x, y))
+		}})
 	register(&opDef{name: "num.uint.neg", model: "zn.neg", weight: 3, gen: genZn(false, false),
 		impl: func(c *tcase) (string, string) {
 			zn, _ := num.NewZMod(nP(c.args[0]))
@@ -772,6 +906,9 @@ func init() {
 		}
 	}
 	opByName["modular.exptoN"].lineArgs = func(c *tcase) []*big.Int { return c.args[:3] }
+	opByName["num.uint.div"].lineArgs = func(c *tcase) []*big.Int {
+		return []*big.Int{c.args[0], c.args[1], zi(c.args[1].BitLen()), c.args[2], zi(c.args[2].BitLen())}
+	}
 	for _, name := range []string{"num.uint.inv", "num.uint.neg", "num.uint.sqrt"} {
 		opByName[name].lineArgs = func(c *tcase) []*big.Int { return c.args[:2] }
 	}
